@@ -39,8 +39,8 @@ Init ==
   \/ \E neg \in 0..1, n \in 1..4 : case = V("BuildProfile", <<neg, n>>)
   \/ \E kind \in 1..3, u \in 1..4 : case = V("Forwarded", <<kind, u>>)
   \/ \E ty \in {"Origin", "AppliedUpstream"} : \E kind \in 1..2, u \in 1..4 : case = V(ty, <<kind, u>>)
-  \/ \E u \in 1..5, b \in Opt(1..2), sp \in Opt(1..2) : case = V("ParsedVcs", <<u, b, sp>>)
-  \/ \E name \in 1..5, u \in 1..5, b \in Opt(1..2), sp \in Opt(1..2) : case = V("Vcs", <<name, u, b, sp>>)
+  \/ \E u \in 1..5, b \in Opt(1..2), sp \in Opt(1..4) : case = V("ParsedVcs", <<u, b, sp>>)
+  \/ \E name \in 1..5, u \in 1..5, b \in Opt(1..2), sp \in Opt(1..4) : case = V("Vcs", <<name, u, b, sp>>)
   \/ \E kind \in 1..3, n \in 1..2, t \in 1..4 : case = V("License", <<kind, n, t>>)
   \/ \E kind \in 1..2, t \in 1..3 : case = V("Signature", <<kind, t>>)
   \* DEP-3 Origin field: optional category prefix "<category>, " in front of the origin (through the patch header readers)
